@@ -248,3 +248,63 @@ def c_lin(ctx, case):
                   atol=1e4 * EPS * cond * np.abs(want).max())
     ctx.close(np.asarray(sub, float), np.asarray(a_w.input_subtract, float), "whitening input_subtract (Dask vs in-memory)",
               rtol=1e-10, atol=1e-12 * np.abs(X).max())
+
+
+# ---------------------------------------------------------------------------- every chunking of a small array
+
+def g_every(draw):
+    est = gen.choice(draw, ["gmm", "kmeans", "gmm"])
+    nmax = 8 if gen.big() else 5
+    if est == "gmm":
+        c = gen.gmm_training_case(draw, max_rows=nmax, min_rows=3)
+        c["trainer"], c["init_by_kmeans"], c["thr"], c["cap"], c["relevance"] = "ml", False, None, 2, 4.0
+    else:
+        c = gen.kmeans_data(draw, max_rows=nmax, min_rows=3)
+        c["k"] = min(c["k"], 2)
+        c["init"] = gen.kmeans_init(draw, c["X"], c["k"], c["scale"], corner=True)
+        c["thr"], c["cap"] = None, 2
+    c["est"] = est
+    c["order_seed"] = gen.integer(draw, 0, 2**16)
+    return c
+
+
+@REG.obligation("every_row_chunking_both_isolation_modes", g_every, quick=16, thorough=320, shard_size=4)
+def c_every(ctx, case):
+    """ALL 2^(n-1) compositions of the rows into chunks, with and without isolation, give the in-memory model."""
+    import itertools
+
+    X = case["X"]
+    n = X.shape[0]
+    if case["est"] == "gmm":
+        a = sut.params_of(gmm(case, None).fit(X))
+        spread2 = float(np.var(X, axis=0).max()) + 1e-300
+        if not all(np.isfinite(v).all() for v in a) or (a[2] < 1e-8 * spread2).any():
+            ctx.discard("collapsed component (ill-conditioned)")
+    else:
+        m = km(case, None).fit(X)
+        a = (np.asarray(m.centroids_, float), np.asarray(m.average_min_distance, float))
+        if not np.isfinite(a[0]).all():
+            ctx.discard("empty cluster")
+    ctx.note(True, "est:" + case["est"], "n=%d" % n)
+    sc = float(np.abs(X).max())
+    for cuts in itertools.product([0, 1], repeat=n - 1):
+        sizes, cur = [], 1
+        for cbit in cuts:
+            if cbit:
+                sizes.append(cur)
+                cur = 1
+            else:
+                cur += 1
+        sizes.append(cur)
+        for iso in (False, True):
+            with sched.owned("random", case["order_seed"] + len(sizes), iso):
+                if case["est"] == "gmm":
+                    d = sut.params_of(gmm(case, None).fit(darr(X, sizes)))
+                else:
+                    mm = km(case, None).fit(darr(X, sizes))
+                    d = (np.asarray(mm.centroids_, float), np.asarray(mm.average_min_distance, float))
+            what = "chunks %s, isolate=%s" % (sizes, iso)
+            for got, want, name in zip(d, a, ("weights", "means", "variances") if case["est"] == "gmm" else ("centroids", "criterion")):
+                ctx.close(got, want, "%s (%s)" % (name, what), rtol=1e-7,
+                          atol=1e-9 * sc * (sc if name in ("variances", "criterion") else 1) + 1e-300)
+            ctx.event("chunkings-tried")
